@@ -12,10 +12,11 @@ environment variable VERIF_OGGINJECT_DRIVER holds a command line, that command i
 request per line on stdin, one answer per line on stdout).  VERIF_OGGINJECT_CASES overrides the number of
 cases per codec."""
 import io, os, shlex, struct, subprocess, types
+import vcheck
 from vcheck import hx
 from guards import timed
 
-DATA = "/repo/tests/data"
+DATA = os.path.join(vcheck.REPO, "tests", "data")      # VERIF_REPO, /repo by default (vcheck puts it on sys.path)
 
 CODECS = {
     "vorbis": dict(mod="oggvorbis", cls="OggVorbis", tags="OggVCommentDict", prefix=b"\x03vorbis", framing=True, strip=7,
@@ -266,7 +267,7 @@ def gen_file(rng, codec):
     """-> (bytes, kind, layout or None); layout only for the well-formed synthesised kinds"""
     kind = rng.choice(["plain"] * 10 + ["sample"] * 3 + ["truncated", "cut-at-page", "junk-behind", "junk-middle", "lacing-too-big",
                                                       "seq-gap", "never-completes", "two-comments", "no-comment", "empty-page",
-                                                      "bad-version", "bad-capture", "bad-crc", "same-codec-twice", "chained",
+                                                      "bad-version", "bad-capture", "bad-crc", "same-codec-twice", "same-codec-twice", "chained",
                                                       "id-not-first", "short-id", "tiny", "seq-off", "comment-first-flag", "foreign-junk-tail",
                                                       "flags-hi"])
     data, lay = gen_plain(rng, codec)
@@ -349,6 +350,10 @@ def gen_file(rng, codec):
         st2 = gen_codec_stream(rng, codec, s2)
         if kind == "chained":
             order = rng.choice([pages + st2["pages"], st2["pages"] + pages])
+        elif rng.random() < 0.4:
+            # A-identification, B-identification, all of B (its comment pages first), then the rest of A
+            mine = [p for p in pages if p["serial"] == lay["serial"]]
+            order = [mine[0], st2["pages"][0]] + st2["pages"][1:] + mine[1:] + [p for p in pages if p["serial"] != lay["serial"]]
         else:
             order = interleave(rng, [[p for p in pages if p["serial"] == lay["serial"]], st2["pages"]] +
                                [[p for p in pages if p["serial"] != lay["serial"]]], bos_first=rng.random() < 0.7)
